@@ -86,6 +86,38 @@ def handle (op : String) (j : Json) : Except String Json := do
       (if expect == "lib" && tag == "ok" then ["invalid-input-accepted"] else [])
     pure (Json.mkObj [("model", model), ("failed", clauses failed),
                       ("ir", match r with | .ok b => irJ b.ir | _ => Json.null)])
+  | "build.c07" =>
+    let r ← runBuild j
+    let model := match r with
+      | .ok b => okJson (Json.mkObj [("files", Json.arr ((b.files.take 2).map fileJ).toArray)])
+      | .error e => errJson e
+    let impl := fieldD j "impl" Json.null
+    let ast := ParseOps.jvalOfJson (← field j "ast")
+    let cfgJ ← field j "cfg"
+    let encIds ← strListField cfgJ "encapsulee"
+    let failed := if impl.isNull then [] else
+      match Parser.parse ast with
+      | .error _ => []
+      | .ok fc =>
+        match Spec.denoted fc encIds [] with
+        | [enc] =>
+          if !Shell.isComponentOrSystem enc then [] else
+          let tag := GenOps.ParseOpsTag impl
+          let files := (arrField (fieldD impl "ok" Json.null) "files").toOption.getD []
+          let text := fun (i : Nat) => match files[i]? with
+            | some f => (strField f "contents").toOption.getD []
+            | none => []
+          -- the exposed ports with their configured semantics (model of create_dzn_elements)
+          let cfgR := (configOf cfgJ).toOption
+          let ports : List Shell.DznPortItf := match cfgR with
+            | some (.ok cfg) => (match Shell.createDznElements cfg fc enc with
+                | .ok de => de.provides ++ de.requires
+                | _ => [])
+            | _ => []
+          (if tag == "ok" && !(match r with | .ok _ => true | _ => false) then ["model-rejects-what-impl-accepts"] else []) ++
+          Spec.holdsC07 fc enc tag (text 0) (text 1) ports
+        | _ => []
+    pure (Json.mkObj [("model", model), ("failed", clauses failed)])
   | "build.trace" =>
     -- model prediction of the traces the compiled program prints for the given scripts
     let r ← runBuild j
